@@ -1084,6 +1084,14 @@ func (m *Model) openFile(c *Conn, r Req, pr *pre, what string) error {
 	m.roIsImage = false
 	fi, serr := pr.fi, pr.serr
 	switch {
+	case serr == nil && !fi.IsDir() && !fi.Mode().IsRegular():
+		// a special file (named pipe, device): whatever the prompt answer is, failure or an open whose content the
+		// harness does not know - but an answer (opening a pipe may block for ever)
+		if size == -1 {
+			m.ro = roState{}
+		} else {
+			m.ro = roState{kind: roUnknown}
+		}
 	case serr != nil:
 		if size != -1 || mtime != 0 {
 			return failf("open-truth", "%s: missing %s answered %x", what, clean, b)
